@@ -27,6 +27,17 @@ def run(chk):
         for combo in itertools.product((F64, F32), repeat=len(names)):
             dts = dict(zip(names, combo))
             K.run_kernel(chk, 'C01', kname, dts, clauses)
+    # operand shapes: the proofs are element-generic, which is only sound if the code does not branch on the shape of an
+    # operand -- so every kernel is also run with 1-d, 2-d broadcast and per-pixel operand shapes
+    shapes = {
+        '1-d': lambda names: {n: ('row',) for n in names},
+        '2-d data, per-pixel geometry': lambda names: {n: (('row', 'tof') if i == 0 else ('row',)) for i, n in enumerate(names)},
+        'scalar geometry, 1-d data': lambda names: {n: (('tof',) if i == 0 else ()) for i, n in enumerate(names)},
+    }
+    for kname, spec in K.KERNELS.items():
+        names = list(spec['args'])
+        for sname, f in shapes.items():
+            K.run_kernel(chk, 'C01', kname, {n: F64 for n in names}, ('formula', 'unit', 'dtype'), tag=f'shape:{sname}', dims_map=f(names))
     lemmas(chk)
     graph_table(chk)
     composition_error(chk)
